@@ -659,9 +659,9 @@ func main() {
 	}
 	// burst stream: 3..4 goroutines start the same cold text at the very same time (the window
 	// between the RLock check and the publication under Lock is only hit by a real race)
-	nburst := 60
+	nburst := 200
 	if a.Tier == "thorough" {
-		nburst = 600
+		nburst = 1500
 	}
 	for i := 0; i < nburst; i++ {
 		g := r.Range(3, 4)
